@@ -233,6 +233,21 @@ func (w *World) FuncRef(f *ssa.Function) string {
 func (w *World) globalFacts(e *FnEnc) {
 	env := &Env{e: e, st: e.initState, old: e.initState, vars: map[string]Val{}, guard: "true"}
 	for _, ax := range w.Contracts.Axioms {
+		if len(ax.Tags) > 0 {
+			used := false
+			if e.con != nil {
+				for _, u := range e.con.Uses {
+					for _, t := range ax.Tags {
+						if t == u {
+							used = true
+						}
+					}
+				}
+			}
+			if !used {
+				continue
+			}
+		}
 		if sp, ok := w.SSAPkgs[ax.Pkg]; ok {
 			env.pkg = sp.Pkg
 		} else if e.fn.Pkg != nil {
